@@ -7,7 +7,7 @@ Decides, from the clang-evaluated constants and the switch->return tables of Uni
  R20.3 element tables: symbol<->number bijection, name tables mutually inverse, nuclear charge == atomic number,
        masses vs standard atomic weights to 4 significant digits
 """
-import math, os
+import math, os, re
 from fractions import Fraction as Fr
 from vsa import front
 from vsa.facts import Facts, walk, unwrap, lit_value, show
@@ -158,18 +158,9 @@ def run(rep, tier):
     for tname in list(REF_TABLES) + list(DERIVED):
         f = F.one(UC + tname)
         rep.analysed(f)
-        tab, tail = switch_table(f)
-        tables[tname] = (f, tab)
         enum = F.enum(T + ENUM_OF_TABLE[tname])
         names = [e[0] for e in enum["enumerators"]]
-        for en in names:
-            rep.check(en in tab, "R20.1", "complete|%s|%s" % (tname, en), "enumerator has a case",
-                      "enumerator %s of %s has no case in %s: conversion falls to the 0.0 tail (division by zero / "
-                      "zero factor)" % (en, ENUM_OF_TABLE[tname], tname), f.loc())
-        extra = set(tab) - set(names)
-        if extra:
-            rep.broken("R20.1", "%s has cases %s that are no enumerators" % (tname, extra))
-
+        tables[tname] = (f, {en: None for en in names})
     # convert overloads: value(to)/value(from)
     conv_of_enum = {}
     for f in F.find(UC + "convert"):
@@ -199,31 +190,41 @@ def run(rep, tier):
                   f.loc(), sample=True)
     rep.floor("R20.1", len(conv_of_enum), 9, "convert overloads")
 
-    def evaluate(n, depth=0):
-        """exact value of a table entry; convert(A,B) calls are folded through the tables"""
-        n = unwrap(n)
-        v = lit_value(n)
-        if v is not None and n["k"] in ("int", "float", "unop", "cast"):
-            return v
-        if n["k"] == "binop" and n["op"] in "+-*/":
-            a, b = evaluate(n["lhs"], depth + 1), evaluate(n["rhs"], depth + 1)
-            return {"+": a + b, "-": a - b, "*": a * b, "/": a / b}[n["op"]]
-        if n["k"] == "cast":
-            return evaluate(n["sub"], depth + 1)
-        if n["k"] == "mcall" and n.get("callee") == UC + "convert" and depth < 6:
-            a, b = unwrap(n["args"][0]), unwrap(n["args"][1])
-            if a.get("dk") == "enumconst" and b.get("dk") == "enumconst":
-                en = a["type"].replace("const ", "").split("::")[-1]
-                tn = conv_of_enum[en]
-                return value_of(tn, b["qname"].split("::")[-1]) / value_of(tn, a["qname"].split("::")[-1])
-        raise AnalysisBroken("table entry outside the recognised constant language: " + show(n))
+    import sympy as sp
+    from vsa.alg import Fold, S, ENUM_SYMS
 
-    def value_of(tname, en):
-        if en not in values.setdefault(tname, {}):
-            f, tab = tables[tname]
-            if en not in tab:
-                raise AnalysisBroken("no case for %s in %s" % (en, tname))
-            values[tname][en] = evaluate(tab[en])
+    def value_of(tname, en, depth=0):
+        """exact value the table function returns for the enumerator: the function is folded with the parameter bound to the enumerator
+        (switch or if-chains, temporaries and helper methods of the class alike); convert(A,B) calls are folded through the tables"""
+        if en in values.setdefault(tname, {}):
+            return values[tname][en]
+        if depth > 8:
+            raise AnalysisBroken("unit tables refer to each other cyclically (%s)" % tname)
+        f, _tab = tables[tname]
+        enum_q = T + ENUM_OF_TABLE[tname]
+
+        def hook(fold, n, env):
+            if n.get("k") == "mcall" and n.get("callee") == UC + "convert" and len(n.get("args", [])) == 2:
+                a_, b_ = fold.ev(n["args"][0], env), fold.ev(n["args"][1], env)
+                if a_ in ENUM_SYMS and b_ in ENUM_SYMS:
+                    en_ = unwrap(n["args"][0]).get("type", "").replace("const ", "").replace(" &", "").split("::")[-1]
+                    if en_ not in conv_of_enum:
+                        en_ = str(a_).split("::")[-2]
+                    tn = conv_of_enum[en_]
+                    va, vb = value_of(tn, str(a_).split("::")[-1], depth + 1), value_of(tn, str(b_).split("::")[-1], depth + 1)
+                    if va == 0:
+                        raise ZeroDivisionError()
+                    return sympy_rat(vb) / sympy_rat(va)
+            return NotImplemented
+        sym = S("%s::%s" % (enum_q, en))
+        ENUM_SYMS.add(sym)
+        fo = Fold(f, call=hook, inline=lambda q, g_: q.startswith(UC) and not q.endswith("::convert") and not q.split("::")[-1].startswith("get"))
+        fo.run({f.j["params"][0]["decl"]: sym})
+        if len(fo.returns) != 1 or isinstance(fo.returns[0][0], (tuple, sp.Matrix)) or not getattr(fo.returns[0][0], "is_number", False):
+            raise AnalysisBroken("%s(%s) does not fold to one constant (%s)" % (tname, en, [str(r_[0])[:60] for r_ in fo.returns]))
+        v = sp.nsimplify(fo.returns[0][0], rational=True)
+        values[tname][en] = Fr(int(v.p), int(v.q))
+        tables[tname][1][en] = fo.returns[0][2]
         return values[tname][en]
 
     n_pos = 0
@@ -456,6 +457,69 @@ def run(rep, tier):
     for u in unit_factor:
         if u not in seen_units:
             rep.broken("R20.4", "getCovRad: branch for unit '%s' not recognised" % u)
+    # ---------------------------------------------------------------- R20.5 file units applied exactly once
+    rep.rule("R20.5", "LAMMPS dump reader (real units -> VOTCA units): x/y/z and xu/yu/zu and velocities are scaled by conv::ang2nm exactly once, "
+                      "scaled coordinates xs/ys/zs by the matching diagonal box element (which ReadBox already converted with ang2nm) and by "
+                      "nothing else, forces by kcal2kj/ang2nm; ReadBox scales the box by ang2nm once")
+    lunit = front.repo("csg/src/libcsg/modules/io/lammpsdumpreader.cc")
+    FL = Facts(front.export([lunit]))
+    rep.units = list(rep.units) + [lunit]
+    LR = "votca::csg::LAMMPSDumpReader::"
+    fra = FL.one(LR + "ReadAtoms")
+    rep.analysed(fra)
+    import sympy as sp
+    fol = Fold(fra).run()
+    a2n, k2j = S("conv::ang2nm"), S("conv::kcal2kj")
+    want = {}
+    for i_, ax in enumerate("xyz"):
+        for nm in (ax, ax + "u"):
+            want[nm] = ("Pos", ax, lambda raw, i_=i_: raw * a2n)
+        want[ax + "s"] = ("Pos", ax, lambda raw, i_=i_: raw * S("getBox(top)(%d,%d)" % (i_, i_)))
+        want["v" + ax] = ("Vel", ax, lambda raw: raw * a2n)
+        want["f" + ax] = ("F", ax, lambda raw: raw * k2j / a2n)
+    seen = {}
+    for e in fol.events:
+        if e["kind"] != "store":
+            continue
+        m_ = re.match(r"^\w+->(Pos|Vel|F)\(\)\.([xyz])\(\)$", e["target"])
+        names = [c for c, pol, _ in e["guards"] if pol and isinstance(c, tuple) and c[0] == "==" and str(c[2]).startswith('"')]
+        if not m_ or not names or isinstance(e["value"], (tuple, sp.Matrix)):
+            continue
+        col = str(names[-1][2]).strip('"')
+        if col not in want:
+            continue
+        q, ax, fn = want[col]
+        val = e["value"]
+        raws = [a for a in val.atoms(sp.Function) if str(a.func) in ("stod", "lexical_cast", "stof", "atof")]
+        # the box symbol's parameter name may differ: normalise getBox(<anything>)
+        norm = {x: S(re.sub(r"^getBox\([^)]*\)", "getBox(top)", str(x))) for x in val.free_symbols if str(x).startswith("getBox(")}
+        val = val.xreplace(norm)
+        ok = len(raws) == 1 and m_.group(1) == q and m_.group(2) == ax and sp.simplify(val - fn(raws[0])) == 0
+        seen[col] = True
+        rep.check(ok, "R20.5", "lammps-dump|" + col, "column %s -> %s.%s = raw * %s" % (col, q, ax, sp.simplify(fn(S("raw")) / S("raw"))),
+                  "LAMMPSDumpReader::ReadAtoms stores column '%s' into %s.%s as %s; required %s: the length conversion is applied %s, so the value is not in the "
+                  "same unit as the box and the other coordinate styles" % (col, m_.group(1), m_.group(2), str(val)[:120], str(fn(S("raw"))),
+                                                                          "twice" if (col.endswith("s") and val.has(a2n)) else "inconsistently"), fra.loc(e["node"]), sample=(col in ("x", "xs", "fx")))
+    for col in want:
+        if col not in seen:
+            rep.broken("R20.5", "LAMMPS dump reader: no store for column '%s' recognised" % col)
+    frb = FL.one(LR + "ReadBox")
+    rep.analysed(frb)
+    fob = Fold(frb, record_calls=r"Topology::setBox$").run()
+    sb = [e for e in fob.events if e["kind"] == "call" and e["args"] and isinstance(e["args"][0], sp.Matrix) and e["args"][0].shape == (3, 3)]
+    okb = len(sb) == 1
+    if okb:
+        M = sb[0]["args"][0]
+        for i_ in range(3):
+            for j_ in range(3):
+                ent = M[i_, j_]
+                if i_ != j_:
+                    okb = okb and ent == 0
+                else:
+                    q_ = sp.cancel(ent / a2n)
+                    okb = okb and ent != 0 and not q_.has(a2n) and not q_.has(k2j)
+    rep.check(okb, "R20.5", "lammps-dump|box", "box = (hi - lo) * ang2nm on the diagonal", "LAMMPSDumpReader::ReadBox does not scale the box bounds by conv::ang2nm exactly once (%s)" % (
+        str(sb[0]["args"][0])[:160] if sb else "no setBox(matrix) call"), frb.loc(), sample=True)
     rep.assumptions += ["decimal literals are read as exact decimals; agreement 'to four significant digits' is "
                         "|value-reference| <= half a unit of the 4th significant digit of the reference",
                         "reference values: CODATA 2018 (e, a0, u, Eh, kB, hbar, N_A), thermochemical calorie 4.184 J"]
